@@ -185,6 +185,46 @@ EXCLUDED = {
 }
 
 
+def o_file_with_extra_cutoff_groups(ctx):
+    """'for any parameter file': the shipped file plus side-chain cut-off lines for group names that have no interaction-matrix
+    row (a new ligand type, another spelling), read through read_parameter_file: look-ups stay symmetric and give the
+    declared values; pairs not named fall back to the default"""
+    import os
+    import tempfile
+    import propka
+    import propka.input as I
+    from propka.parameters import Parameters
+    cfg = open(os.path.join(os.path.dirname(propka.__file__), 'propka.cfg')).read()
+    new = ctx.choice('new_group', ['BR', 'Cl', 'XYZ'])
+    partner = ctx.choice('partner', ['COO', 'HIS', 'BR', 'LYS'])
+    where = ctx.choice('position', ['end', 'start', 'before-the-matrix'])
+    line = 'sidechain_cutoffs %s %s 2.20 3.20\n' % (new, partner)
+    if where == 'end':
+        text = cfg + ('' if cfg.endswith('\n') else '\n') + line
+    elif where == 'start':
+        text = line + cfg
+    else:
+        i = cfg.index('interaction_matrix')
+        text = cfg[:i] + line + cfg[i:]
+    d = tempfile.mkdtemp(prefix='c18f')
+    path = os.path.join(d, 'custom.cfg')
+    open(path, 'w').write(text)
+    try:
+        p = I.read_parameter_file(path, Parameters())
+    finally:
+        import shutil
+        shutil.rmtree(d, ignore_errors=True)
+    m = p.sidechain_cutoffs
+    ctx.claim('declared-pair-as-written', list(m.get_value(new, partner)) == [2.2, 3.2] and list(m.get_value(partner, new)) == [2.2, 3.2],
+              detail='(%s,%s) -> %r, (%s,%s) -> %r' % (new, partner, m.get_value(new, partner), partner, new, m.get_value(partner, new)))
+    for other in ('COO', 'HIS', 'LYS', 'TYR', 'BR', 'XYZ'):
+        ctx.claim('symmetric', list(m.get_value(new, other)) == list(m.get_value(other, new)), detail='(%s,%s) -> %r but (%s,%s) -> %r' % (new, other, m.get_value(new, other), other, new, m.get_value(other, new)))
+    ref = H.params().sidechain_cutoffs
+    for a_, b_ in (('COO', 'HIS'), ('ARG', 'COO'), ('SER', 'LYS')):
+        if not (partner in (a_, b_) and new in (a_, b_)):
+            ctx.claim('shipped-pairs-unchanged', list(m.get_value(a_, b_)) == list(ref.get_value(a_, b_)))
+
+
 def o_shipped(ctx):
     p = H.params(fresh=True)
     types = group_types_from_source()
@@ -249,6 +289,9 @@ def obligations(tier):
                           'excluded with reason: %s' % '; '.join('%s (%s)' % kv for kv in sorted(EXCLUDED.items())),
                    claim_doc='interaction type in {I,N,-} for every pair; model pKa and non-zero charge for written-out types; inner < outer cut-offs',
                    kind='table-check', stop_on_violation=False),
+        Obligation('O6-file-with-extra-cutoff-groups', o_file_with_extra_cutoff_groups, code=['propka/input.py:read_parameter_file', P + 'Parameters.parse_line', P + 'PairwiseMatrix.add', P + 'PairwiseMatrix.get_value'],
+                   bounds='the shipped file plus one cut-off line for a group without a matrix row (3 names x 4 partners x 3 positions in the file; 36 concrete files)', kind='table-check',
+                   claim_doc='the declared pair reads as written in both orders; every look-up involving the new group is symmetric; shipped pairs unchanged'),
     ]
 
 
